@@ -153,6 +153,9 @@ CANARIES = [
     ('get-bucket-creates', 'C01', 'src/bucket.rs', '        self.bucket_getter(name.to_bytes(), false, false)', '        self.bucket_getter(name.to_bytes(), true, false)'),
     ('create-bucket-returns-existing', 'C01', 'src/bucket.rs', '        self.bucket_getter(name.to_bytes(), true, true)', '        self.bucket_getter(name.to_bytes(), true, false)'),
     ('get-or-create-refuses-existing', 'C01', 'src/bucket.rs', '        &mut self,\n        name: T,\n    ) -> Result<Rc<RefCell<Self>>> {\n        self.bucket_getter(name.to_bytes(), true, false)', '        &mut self,\n        name: T,\n    ) -> Result<Rc<RefCell<Self>>> {\n        self.bucket_getter(name.to_bytes(), true, true)'),
+    ('data-kv-swapped', 'C07', 'src/data.rs', '            Leaf::Kv(key, value) => Data::KeyValue(KVPair::new(key, value)),', '            Leaf::Kv(key, value) => Data::KeyValue(KVPair::new(value, key)),'),
+    ('kvpair-value-is-key', 'C07', 'src/data.rs', '    pub fn value(&self) -> &[u8] {\n        self.value.as_ref()', '    pub fn value(&self) -> &[u8] {\n        self.key.as_ref()'),
+    ('option-kv-from-bucket', 'C07', 'src/data.rs', '            Leaf::Bucket(_, _) => None,\n            Leaf::Kv(key, value) => Some(KVPair::new(key, value)),', '            Leaf::Bucket(n, _) => Some(KVPair::new(n.clone(), n)),\n            Leaf::Kv(key, value) => Some(KVPair::new(key, value)),'),
 ]
 
 
